@@ -24,6 +24,8 @@
 // assignment over non-fresh destinations for all ordered pairs/triples, the equality relation on all pairs and against
 // native types, every constructor overload, call histories and calling contexts, mutation histories against a container
 // model, boundary integers/floats, large values; plus the two other parse entry points (check_entry_points).
+// Round 3 (harness/C04_r3.hh): section rejected - call histories in which a step throws (rejected texts x both modes x
+// three entry points, throwing accessors) around round-trip steps judged by the memoryless oracle.
 #include <float.h>
 #include <math.h>
 #include <stdlib.h>
@@ -646,5 +648,6 @@ VF_SECTION(deep, 9, 9, 180) {
 }
 
 #include "C04_r2.hh"
+#include "C04_r3.hh"
 
 VF_MAIN()
